@@ -315,6 +315,7 @@ def _mk_pose(pname, q):
                         ('Fourati', lambda: flt.Fourati(G.copy(), A.copy(), M.copy()).Q),
                         ('AQUA(acc, mag)', lambda: flt.AQUA(acc=A.copy(), mag=M.copy()).Q),
                         ('Tilt(acc, mag)', lambda: flt.Tilt(A.copy(), M.copy()).Q),
+                        ('FQA(acc, mag)', lambda: flt.FQA(acc=A.copy(), mag=M.copy(), mag_ref=mref).Q),
                         ('TRIAD quaternion', lambda: flt.TRIAD(A.copy(), M.copy(), representation='quaternion').A)) + \
                 ((('OLEQ N=2', lambda: flt.OLEQ(A.copy(), M.copy(), weights=np.array([1.0, 0.0]), magnetic_ref=mref).Q),)
                  if pname == 'level' else ()):
